@@ -402,7 +402,110 @@ def r5_mirror(ctx):
     ctx.extra["mirror_pairs_not_judged"] = unjudged
 
 
+def r6_legal_filter(ctx):
+    rid = "C01.R6"
+    ctx.rule(rid, "generate_legal_moves = the pseudo-legal moves filtered by is_move_legal on every accepting path of its filter; is_any_move_legal tests is_move_legal; is_move_legal = make, is_valid, unmake", floor=3)
+    prog = ctx.prog
+    f = ctx.fn(rid, BB + "generate_legal_moves")
+    ex = Exprs(f)
+    filters, src_ok = [], False
+    cfg = Cfg(f)
+    pushes_unprobed, pushes = [], 0
+    for bi in sorted(cfg.reach):
+        b = f["blocks"][bi]
+        t = b["term"]
+        if b["cleanup"] or t["k"] != "call":
+            continue
+        k = t["callee"].get("key") or ""
+        last = k.rsplit("::", 1)[-1]
+        if last in ("filter", "retain", "retain_mut", "take_while", "skip_while", "filter_map", "extract_if", "partition"):
+            for a in t["args"]:
+                tr = ex.operand(a)
+                if tr[0] == "agg" and tr[1] == "closure":
+                    filters.append(tr[2])
+        if last in ("push", "push_back", "extend", "insert") and cfg.in_loop(bi):
+            # a hand-written loop: the push must be control dependent on a successful probe
+            pushes += 1
+            dep = False
+            for (a, sb) in cfg.control_deps_transitive(bi):
+                sw = f["blocks"][a]["term"]
+                if sw["k"] == "switch":
+                    dt = ex.operand(sw["discr"])
+                    if dt[0] == "call" and dt[1] == BB + "is_move_legal" and sb == sw["otherwise"]:
+                        dep = True
+            if not dep:
+                pushes_unprobed.append(t["line"])
+        if k == BB + "generate_pseudo_legal_moves" or k == BB + "generate_pseudo_legal_moves_with_buffer":
+            src_ok = True
+    strict = []
+    for ck in filters:
+        g = prog.fns.get(ck)
+        if g is None:
+            continue
+        try:
+            pes = returning_paths(g)
+        except NotLoopFree:
+            continue
+        acc = []
+        for pe in pes:
+            r = pe.ret()
+            try:
+                if fold(r) == 0:
+                    continue
+            except Unfoldable:
+                pass
+            trees = [d for (d, c, bb_, ty) in pe.conds] + [r]
+            acc.append(any(x[0] == "call" and x[1] == BB + "is_move_legal" for t in trees for x in leaves(t)))
+        if acc and all(acc):
+            strict.append(ck)
+    ok = src_ok and (len(filters) + pushes) >= 1 and len(strict) == len(filters) and not pushes_unprobed
+    ctx.ob(rid, "generate_legal_moves|every-move-probed", ok,
+           "" if ok else "generate_legal_moves does not put every pseudo-legal move through is_move_legal (filter/retain closures: %d, of which always probing: %d; pushes in loops not under a successful probe: %d; source is the pseudo-legal generator: %s): a move accepted without make/is_valid/unmake can leave the own king in check (pins, en passant discoveries)" % (len(filters), len(strict), len(pushes_unprobed), src_ok),
+           ctx.where(f), sample={"filters": len(filters), "always_probing": len(strict)})
+    g = ctx.fn(rid, BB + "is_move_legal")
+    try:
+        gp = returning_paths(g)
+        calls = [t[1] for b, t in gp[0].calls if t[0] == "call"] if len(gp) == 1 else []
+        r = gp[0].ret() if len(gp) == 1 else None
+        ok = calls[:3] == [BB + "make", BB + "is_valid", BB + "unmake"] and r is not None and r[0] == "call" and r[1] == BB + "is_valid"
+    except NotLoopFree:
+        ok = False
+    ctx.ob(rid, "is_move_legal|make-is_valid-unmake", ok, "" if ok else "is_move_legal is not `make; is_valid; unmake` returning is_valid's result", ctx.where(g))
+    h = ctx.fn(rid, BB + "is_any_move_legal")
+    hex_ = Exprs(h)
+    hcfg = Cfg(h)
+    probes = [b for b in sorted(hcfg.reach) if h["blocks"][b]["term"]["k"] == "call" and h["blocks"][b]["term"]["callee"].get("key") == BB + "is_move_legal"]
+    ok = len(probes) == 1 and hcfg.in_loop(probes[0])
+    if ok:
+        # `true` is returned only under a successful probe
+        for b in sorted(hcfg.reach):
+            for s in h["blocks"][b]["stmts"]:
+                d = s["dst"]
+                if d is not None and d["l"] == 0 and not d["p"] and s["rv"]["op"] == "use" and s["rv"]["a"][0].get("v") is True:
+                    dep = False
+                    for (a, sb) in hcfg.control_deps_transitive(b):
+                        sw = h["blocks"][a]["term"]
+                        if sw["k"] == "switch":
+                            dt = hex_.operand(sw["discr"])
+                            if dt[0] == "call" and dt[1] == BB + "is_move_legal" and sb == sw["otherwise"]:
+                                dep = True
+                    ok = ok and dep
+    ctx.ob(rid, "is_any_move_legal|probes-each-move", ok, "" if ok else "is_any_move_legal does not return true exactly under a successful is_move_legal probe inside its loop", ctx.where(h))
+
+
 def run(ctx):
+    r6_legal_filter(ctx)
+    # the castling rights that castle_moves trusts are maintained by make_move's bookkeeping (shared with C02.R5)
+    try:
+        from . import movefields as MF_
+        fields, setters = MF_.derive(ctx, "C02.R5")
+        if len(fields) >= 16:
+            pairing = MF_.pair(fields, setters)
+            roles = c02.derive_roles(ctx, fields)
+            if len(roles) == 4:
+                c02.r4_r5_generation(ctx, fields, setters, pairing, roles)
+    except Exception as e:
+        ctx.lost("C02.R5", "shared castling-right bookkeeping rule: %s" % e)
     r1_castling(ctx)
     r2_siblings(ctx)
     r3_promotions(ctx)
